@@ -223,6 +223,11 @@ class SimSocket(_real_socket):
             act = pol.on_send(self, len(data))
             if act:
                 if act[0] == 'short':
+                    if act[1] <= 0 and len(data):
+                        # "accept k of n bytes" with k = 0: the degenerate partial send (nothing taken, no errno)
+                        if NET.oplog is not None:
+                            NET.oplog('send', self, b'')
+                        return 0
                     data = bytes(data[:max(1, min(len(data), act[1]))]) if len(data) else data
                 elif act[0] == 'err':
                     # ('err', errno) with a fatal errno kills the connection for good, as a real one does; ('err', errno, 'once') raises it for
